@@ -123,12 +123,19 @@ func (server *SugarDB) keysExist(ctx context.Context, keys []string) map[string]
 
 	exists := make(map[string]bool, len(keys))
 
+	now := server.clock.Now()
 	for _, key := range keys {
-		_, ok := server.store[database][key]
-		exists[key] = ok
+		entry, ok := server.store[database][key]
+		// A key whose deadline has passed is missing, even if it has not been removed yet.
+		exists[key] = ok && !isExpired(entry, now)
 	}
 
 	return exists
+}
+
+// isExpired returns true when the entry has a deadline and that deadline has passed.
+func isExpired(entry internal.KeyData, now time.Time) bool {
+	return entry.ExpireAt != (time.Time{}) && entry.ExpireAt.Before(now)
 }
 
 func (server *SugarDB) getExpiry(ctx context.Context, key string) time.Time {
@@ -138,7 +145,7 @@ func (server *SugarDB) getExpiry(ctx context.Context, key string) time.Time {
 	database := ctx.Value("Database").(int)
 
 	entry, ok := server.store[database][key]
-	if !ok {
+	if !ok || isExpired(entry, server.clock.Now()) {
 		return time.Time{}
 	}
 
@@ -682,26 +689,19 @@ func (server *SugarDB) randomKey(ctx context.Context) string {
 
 	database := ctx.Value("Database").(int)
 
-	_max := len(server.store[database])
-	if _max == 0 {
+	// Only keys whose deadline has not passed are candidates.
+	now := server.clock.Now()
+	live := make([]string, 0, len(server.store[database]))
+	for key, entry := range server.store[database] {
+		if !isExpired(entry, now) {
+			live = append(live, key)
+		}
+	}
+	if len(live) == 0 {
 		return ""
 	}
 
-	randnum := rand.Intn(_max)
-	i := 0
-	var randkey string
-
-	for key, _ := range server.store[database] {
-		if i == randnum {
-			randkey = key
-			break
-		} else {
-			i++
-		}
-
-	}
-
-	return randkey
+	return live[rand.Intn(len(live))]
 }
 
 func (server *SugarDB) getObjectFreq(ctx context.Context, key string) (int, error) {
